@@ -255,3 +255,42 @@ func VxC13Rounds() {
 	vx.Assert("wal-bounded-after-the-idle-round", vx.Or(frames < c.lowest, frames <= 1))
 	_ = requestedBefore
 }
+
+// VxC13IdleFile: the idle steady state after a PASSIVE checkpoint restarted the
+// WAL: the live generation holds litestream's one bookkeeping frame, already
+// copied, while the WAL *file* still carries the stale tail of the previous
+// generation - any number of frames, also more than the emergency threshold. The
+// real syncLocked and verifyAndSyncWithExecutor (which picks the size the
+// checkpoint decision is made on) run with verify and the copy cut out: an idle
+// sync must request no checkpoint, whatever the file size.
+func VxC13IdleFile() {
+	c := vxCkptDB()
+	db := c.db
+	defer db.f.Close()
+	tail := vx.Range("staleTailFrames", 0, 1<<18-1)
+	vx.FSSparseFileSym(db.path+"-wal", c.walSize(1+tail))
+	e := vxNewSQLEnv(false)
+	e.pageSize = int64(db.pageSize)
+	defer func() { vxSQLHandler = nil }()
+	db.Replica = NewReplicaWithClient(db, &vxStoreClient{})
+	db.Replica.MonitorEnabled = false
+	db.MonitorInterval = 0
+	vx.FSMkdirAll(db.LTXLevelDir(0))
+	ctx := context.Background()
+	if err := db.init(ctx); err != nil {
+		panic(err)
+	}
+	one := c.walSize(1)
+	db.syncState.lastSyncedWALOffset = one
+	db.syncState.syncedToWALEnd = vx.Fault("syncedToFileEnd")
+	vx.Assume(vx.Implies(db.syncState.syncedToWALEnd, tail == 0))
+	db.syncState.syncedSinceCheckpoint = false
+	vxInner = &vxInnerScript{info: syncInfo{offset: one}, res: syncResult{newWALSize: one, syncedToWALEnd: db.syncState.syncedToWALEnd}}
+	defer func() { vxInner = nil }()
+	vxCkptStub, vxCkptModes = true, nil
+	vxCkptOutcome = func(string) int { return 0 }
+	defer func() { vxCkptStub = false }()
+	vx.Known("H5b", vx.IteU64(c.trN == 0, DefaultTruncatePageN, c.trN) == 1)
+	_, err := db.syncLocked(ctx, 0)
+	vx.Assert("idle-sync-requests-no-checkpoint", err == nil && len(vxCkptModes) == 0)
+}
